@@ -1671,6 +1671,14 @@ func lockLifetimeGuards(c *Ctx, rule string) {
 						if isOld(a) {
 							keeps = true
 						}
+						// max(req, m) with m = the stored lock's value when there is a lock
+						if phi, ok := Unwrap(a).(*ssa.Phi); ok {
+							for _, e := range phi.Edges {
+								if isOld(e) {
+									keeps = true
+								}
+							}
+						}
 					}
 				}
 			case *ssa.Phi:
